@@ -35,7 +35,51 @@ func ruleDownloaderLoad(c *Check, rPair, rOver, rCorrupt string) {
 	// The closure releases a captured variable; that variable is, in the parent,
 	// the local that holds the result of Acquire on the decompress limiter
 	// (identified by what is stored into it, not by its name).
+	isDecompAcquire := func(v ssa.Value) bool {
+		call, ok := v.(*ssa.Call)
+		if !ok {
+			return false
+		}
+		callee := call.Common().StaticCallee()
+		return callee != nil && calleeName(callee) == fnAcquire && len(call.Common().Args) == 1 &&
+			strings.HasSuffix(renderAddr(call.Common().Args[0]), ".decompressedSnapshotLimit")
+	}
 	closureReleases := func(name string) (bool, string) {
+		if strings.HasSuffix(name, "$bound") {
+			// a method value: the method releases a field of its receiver, and the
+			// receiver bound here carries the decompress token in that field
+			mc := findMakeClosure(fn, name)
+			if mc == nil || len(mc.Bindings) != 1 {
+				return false, ""
+			}
+			obj, _ := mc.Fn.(*ssa.Function).Object().(*types.Func)
+			if obj == nil {
+				return false, ""
+			}
+			m := c.P.SSA.FuncValue(obj)
+			if m == nil || m.Blocks == nil || len(m.Params) == 0 {
+				return false, ""
+			}
+			w := Walk(c.P, m, WalkConfig{})
+			field := ""
+			pre := "param:" + m.Params[0].Name() + "."
+			for i := range w.Paths {
+				for _, e := range callsOf(&w.Paths[i], fnRelease) {
+					if strings.HasPrefix(e.Args[0], pre) && !strings.Contains(e.Args[0][len(pre):], ".") {
+						field = e.Args[0][len(pre):]
+					}
+				}
+			}
+			if field == "" {
+				return false, ""
+			}
+			for _, v := range structFieldInit(mc.Bindings[0], field) {
+				if isDecompAcquire(v) {
+					return true, "decompress-token"
+				}
+			}
+			return true, "other"
+		}
 		cl := c.P.Func(name)
 		if cl == nil {
 			return false, ""
@@ -53,12 +97,8 @@ func ruleDownloaderLoad(c *Check, rPair, rOver, rCorrupt string) {
 			return false, ""
 		}
 		for _, v := range closureFreeInit(fn, cl, freeName) {
-			if call, ok := v.(*ssa.Call); ok {
-				if callee := call.Common().StaticCallee(); callee != nil && calleeName(callee) == fnAcquire && len(call.Common().Args) == 1 {
-					if strings.HasSuffix(renderAddr(call.Common().Args[0]), ".decompressedSnapshotLimit") {
-						return true, "decompress-token"
-					}
-				}
+			if isDecompAcquire(v) {
+				return true, "decompress-token"
 			}
 		}
 		return true, "other"
